@@ -33,7 +33,7 @@ def _case(draw):
     dtype = draw(st.sampled_from(["float64", "float64", "float32", "longdouble"]))
     shape = draw(st.sampled_from(SHAPES if dtype != "longdouble" else SHAPES[:5] + [[2, 2]]))
     n = int(np.prod(shape)) if shape else 1
-    fam = draw(st.sampled_from(["root", "root", "root", "noroot_square", "noroot_inconsistent", "singular_root", "zero_diag"]))
+    fam = draw(st.sampled_from(["root", "root", "root", "noroot_square", "noroot_inconsistent", "singular_root", "zero_diag", "expm1"]))
     if n == 1 and fam == "noroot_inconsistent":
         fam = "noroot_square"
     if fam == "zero_diag" and n % 2:
@@ -52,6 +52,9 @@ def _case(draw):
                 a=draw(st.sampled_from([0.0, 0.5, 1.0])), b=draw(st.sampled_from([0.0, 0.25, 1.0])),
                 xstar=draw(st.lists(_fr, min_size=n, max_size=n)),
                 start=draw(st.lists(st.sampled_from([0.0, 0.1, -0.2, 1.0, -3.0, 10.0, 30.0]), min_size=n, max_size=n)),
+                # a start so far out that the residual there overflows (cubes of 1e110, exp(800)): inf, or nan where terms of both
+                # signs meet - a point from which no solver can move, and certainly not a solution
+                overflow_start=draw(st.sampled_from([None] * 9 + [1.0, -1.0, 0.0])),
                 c=draw(st.lists(st.sampled_from([1.0, -2.0, 0.5]), min_size=n, max_size=n)),
                 tol=draw(st.sampled_from({"float32": [1e-4, 1e-5], "float64": [1e-6, 1e-9, 1e-12], "longdouble": [1e-9, 1e-12, 1e-15]}[dtype])),
                 with_jac=draw(st.booleans()), jac_layout=draw(st.sampled_from(["matrix", "tensor"])),
@@ -90,6 +93,8 @@ class System(object):
         elif fam == "noroot_inconsistent":
             out = Mx @ v
             out = out + np.concatenate([np.zeros(self.n - 1, dtype=dtype), np.ones(1, dtype=dtype)])  # last two rows equal, rhs differs
+        elif fam == "expm1":
+            out = np.expm1(v - xs)
         elif fam == "zero_diag":
             # first-order form of a second-order system, x = (u, v):  F = (B (v - v*), C (u - u*) + b (u - u*)^3): regular
             # Jacobian with an exactly zero diagonal (the dogleg's initial trust region max|diag J| vanishes)
@@ -122,6 +127,8 @@ class System(object):
             return np.diag(2 * v)
         if fam == "noroot_inconsistent":
             return Mx.copy()
+        if fam == "expm1":
+            return np.diag(np.exp(v - xs))
         if fam == "zero_diag":
             m = self.n // 2
             d = v - xs
@@ -143,6 +150,20 @@ def check(case):
     S = System(case, dt)
     shape, n = S.shape, S.n
     x0 = (np.asarray(case["xstar"], dtype=dt) + np.asarray(case["start"], dtype=dt)).reshape(shape)
+    if case.get("overflow_start") is not None and case["fam"] == "noroot_inconsistent":
+        # (an inconsistent LINEAR system misses its right-hand side by 1; at |x| = 1e110 the rounding of M x alone is 1e94, so
+        #  "has no root" cannot be told from "has one" there - the far starts are for the other families)
+        case = dict(case, overflow_start=None)
+    if case.get("overflow_start") is not None:
+        big = {"float32": 1e15, "float64": 1e110, "longdouble": np.longdouble("1e1700")}[case["dtype"]] if case["fam"] != "expm1" else {"float32": 100.0, "float64": 800.0, "longdouble": 12000.0}[case["dtype"]]
+        off = np.full(n, big, dtype=dt)
+        if case["overflow_start"] == 0.0:
+            off[1::2] *= -1          # alternating signs: inf - inf = nan where the matrix couples the components
+        else:
+            off *= dt(case["overflow_start"])
+        if case["fam"] == "expm1":
+            off = np.abs(off)        # (exp overflows on one side only)
+        x0 = (np.asarray(case["xstar"], dtype=dt) + off).reshape(shape)
     tol = case["tol"]
     solver = case["solver"]
     labels = ["solver:" + solver, "dtype:" + case["dtype"], "fam:" + case["fam"], "jac:" + ("user" if case["with_jac"] else "fd"),
@@ -190,10 +211,18 @@ def check(case):
         viols.append(V("shape", "{} returned shape {} for an initial guess of shape {}".format(solver, x.shape, shape), sig, **attrs))
         return viols, dict(nontrivial=nontrivial, labels=labels)
     labels.append("success" if success else "reported_failure")
+    if case.get("overflow_start") is not None:
+        with np.errstate(all="ignore"):
+            labels.append("residual_at_the_start:" + ("finite" if np.all(np.isfinite(np.asarray(S.F(x0.copy()), dtype=np.float64))) else "overflows"))
     if success:
         xl = x.astype(np.longdouble)
-        res = float(np.linalg.norm(np.asarray(S.F(xl), dtype=np.longdouble).reshape(-1)))
-        if not np.all(np.isfinite(x.astype(np.float64))):
+        with np.errstate(all="ignore"):
+            res_own = float(np.linalg.norm(np.asarray(S.F(x.copy()), dtype=np.longdouble).reshape(-1)))      # in the precision of the call
+            res = float(np.linalg.norm(np.asarray(S.F(xl), dtype=np.longdouble).reshape(-1)))
+        if not np.isfinite(res_own) and not noroot:
+            viols.append(V("false_success", "{} ({}) reports success at a point where the residual is {!r} (family {}, start {})".format(
+                solver, case["dtype"], res_own, case["fam"], np.asarray(x0, dtype=np.float64).reshape(-1)[:3].tolist()), sig + ":nonfinite", residual="nonfinite", **attrs))
+        elif not np.all(np.isfinite(x.astype(np.float64))):
             viols.append(V("false_success", "{} reports success at a non-finite point".format(solver), sig, **attrs))
         else:
             Jn = float(np.linalg.norm(S.J(x.astype(np.float64)).astype(np.float64), 2)) if n > 1 else float(abs(S.J(x.astype(np.float64)).reshape(-1)[0]))
